@@ -63,3 +63,24 @@ func (e *baseFibStrategyEntry) GetStrategy() enc.Name {
 func (e *baseFibStrategyEntry) GetNextHops() []*FibNextHopEntry {
 	return e.nexthops
 }
+
+// copyNextHops returns copies of the next-hop entries, so that the result can be read
+// without holding the table lock while the table keeps updating its own entries.
+func copyNextHops(nexthops []*FibNextHopEntry) []*FibNextHopEntry {
+	ret := make([]*FibNextHopEntry, len(nexthops))
+	for i, nh := range nexthops {
+		nhCopy := *nh
+		ret[i] = &nhCopy
+	}
+	return ret
+}
+
+// snapshot returns a copy of the entry that can be read without holding the table lock.
+func (e *baseFibStrategyEntry) snapshot() *baseFibStrategyEntry {
+	return &baseFibStrategyEntry{
+		component: e.component,
+		name:      e.name,
+		nexthops:  copyNextHops(e.nexthops),
+		strategy:  e.strategy,
+	}
+}
